@@ -275,6 +275,59 @@ theorem C04_json_recoverDur_sound (c : Clock) (hc : clockOK c = true) (dm n : In
   have l2' : n - n' < 1 := by exact_mod_cast l2
   omega
 
+theorem roundDiv_eq (n d f : Int) (hd : 0 < d) (h1 : 0 ≤ 2 * (n - d * f) + d) (h2 : 2 * (n - d * f) < d) :
+    roundDiv n d = f := by
+  unfold roundDiv
+  rw [Int.ediv_eq_iff_of_pos (by omega)]
+  constructor <;> nlinarith
+
+/-- **C04 (JSON), frame recovery is exact**: under `clockOK`, `recoverStart` accepts a rendered begin time as frame `f`
+**iff** it is within the tolerance of the exact time of frame `f` — the reader refuses exactly the renderings that are
+no frame's time (no false alarm on a correct rendering, no acceptance of a wrong one). -/
+theorem C04_json_recoverStart_iff (c : Clock) (hc : clockOK c = true) (bm f : Int) :
+    recoverStart c bm = some f ↔ |(bm : ℚ) / 1000 - timeOf c.start c.frate f| ≤ tol := by
+  constructor
+  · exact fun h => (C04_json_recoverStart_sound c hc bm f h).1
+  · intro hb
+    have hc' := hc
+    simp only [clockOK, Bool.and_eq_true, decide_eq_true_eq] at hc'
+    obtain ⟨⟨hsd, hf⟩, h500⟩ := hc'
+    have hw := (startErr_within c hsd hf bm f).2 hb
+    have hw' := (within_iff _ _).1 hw
+    simp only [tolNano] at hw'
+    have hB : 500001 * c.sd * c.frate ≤ 250000500 * c.sd := by nlinarith
+    have hr : roundDiv ((bm * c.sd - 1000 * c.sn) * c.frate) (1000 * c.sd) = f := by
+      apply roundDiv_eq _ _ _ (by omega)
+      · have : (bm * c.sd - 1000 * c.sn) * c.frate - 1000 * c.sd * f = startErr c bm f := by
+          simp only [startErr]; ring
+        rw [this]; omega
+      · have : (bm * c.sd - 1000 * c.sn) * c.frate - 1000 * c.sd * f = startErr c bm f := by
+          simp only [startErr]; ring
+        rw [this]; omega
+    simp only [recoverStart]
+    rw [hr, if_pos hw]
+
+/-- the same for durations -/
+theorem C04_json_recoverDur_iff (c : Clock) (hc : clockOK c = true) (dm n : Int) :
+    recoverDur c dm = some n ↔ |(dm : ℚ) / 1000 - (n : ℚ) / c.frate| ≤ tol := by
+  constructor
+  · exact fun h => (C04_json_recoverDur_sound c hc dm n h).1
+  · intro hb
+    have hc' := hc
+    simp only [clockOK, Bool.and_eq_true, decide_eq_true_eq] at hc'
+    obtain ⟨⟨_, hf⟩, h500⟩ := hc'
+    have hw := (durErr_within c hf dm n).2 hb
+    have hw' := (within_iff _ _).1 hw
+    simp only [tolNano] at hw'
+    have hr : roundDiv (dm * c.frate) 1000 = n := by
+      apply roundDiv_eq _ _ _ (by omega)
+      · have : dm * c.frate - 1000 * n = durErr c dm n := by simp only [durErr]
+        rw [this]; omega
+      · have : dm * c.frate - 1000 * n = durErr c dm n := by simp only [durErr]
+        rw [this]; omega
+    simp only [recoverDur]
+    rw [hr, if_pos hw]
+
 /-! ### non-vacuity -/
 
 /-- a two-word tree: word 0 = frames [0,5) with phones [0,3),[3,5); word 1 = [5,9) with one phone -/
